@@ -260,6 +260,21 @@ theorem accepted_config_in_ranges (o : Opts) (c : Config) (h : validate o = .ok 
     omega
   · simp only [Bool.and_eq_true, List.isEmpty_iff, and_assoc]
 
+/-- the ending the model predicts passes the (more liberal) judge the harness applies to observed endings -/
+theorem model_outcome_consistent (o : Opts) :
+    consistent o (match validate o with | .ok _ => none | .error r => some r.kind) = true := by
+  rcases h : validate o with r | a
+  · have h1 := (first_failing_rule_reported o r).1 h
+    unfold firstViolated at h1
+    simp only [consistent, List.any_eq_true]
+    exact ⟨r, List.mem_of_find?_eq_some h1, by simp [List.find?_some h1]⟩
+  · have h1 := (accepted_iff_no_rule_violated o).1 ⟨a, h⟩
+    unfold firstViolated at h1
+    simp only [consistent, List.all_eq_true]
+    intro r hr
+    have := List.find?_eq_none.1 h1 r hr
+    simp [this]
+
 /-! ## OPTIONS.md read literally: where the code differs -/
 
 /-- the code enforces every documented rule: an accepted `.tflite` compilation satisfies OPTIONS.md as written -/
